@@ -7,14 +7,20 @@
 (***************************************************************************)
 EXTENDS Integers, Sequences, FiniteSets, TLC
 
-Closed == [open |-> FALSE, path |-> 0, rd |-> FALSE, wr |-> FALSE, pos |-> 0, eof |-> FALSE]
+Closed == [open |-> FALSE, path |-> 0, rd |-> FALSE, wr |-> FALSE, app |-> FALSE, pos |-> 0, eof |-> FALSE]
 
 (* bytes written by the harness for (seed, n): a deterministic pattern with zero bytes in it *)
 Pattern(seed, n) == [k \in 1..n |-> (seed * 31 + (k - 1) * 7 + ((k - 1) \div 256)) % 256]
 
-(* modes: 1 "rb"  2 "wb"  3 "r+b"  4 "w+b" *)
-CanRead(m) == m \in {1, 3, 4}
-CanWrite(m) == m \in {2, 3, 4}
+(* modes: 1 "rb"  2 "wb"  3 "r+b"  4 "w+b"  5 "ab"  6 "a+b"                                             *)
+(* append modes: every write goes to the END of the file wherever the position is, and leaves the position   *)
+(* there; "ab" opens positioned at the end, "a+b" at the start (the C library's behaviour here: glibc)       *)
+CanRead(m) == m \in {1, 3, 4, 6}
+CanWrite(m) == m \in {2, 3, 4, 5, 6}
+Appends(m) == m \in {5, 6}
+OpenedAt(p, m, c) == [open |-> TRUE, path |-> p, rd |-> CanRead(m), wr |-> CanWrite(m), app |-> Appends(m),
+                      pos |-> IF m = 5 THEN Len(c) ELSE 0, eof |-> FALSE]
+WritePos(h, c) == IF h.app THEN Len(c) ELSE h.pos                       \* where the next write lands
 Truncates(m) == m \in {2, 4}
 NeedsFile(m) == m \in {1, 3}
 
